@@ -6,6 +6,10 @@ Case (driver "view"):
    "defaults": bool,                           does this Tor answer GETINFO config/defaults (else 552)
    "dep": "Dependent" | "Dependant",           spelling of the LINELIST_S type word (old Tors: "Dependant")
    "echo": bool,                               Tor announces our own SETCONFs with CONF_CHANGED too (real Tor does)
+   "attach": null | [{"o": name, "case": k, "v": value}, ...],
+                                               null/absent: the view is built with TorConfig.from_protocol(proto);
+                                               a list: TorConfig() without a protocol, these options assigned locally
+                                               under the given spelling, then attach_protocol(proto) (what launch() does)
    "steps": [{"op": "event", "changes": [[name, null | [lines...]], ...]},     another controller changed these
              {"op": "read", "o": name, "case": k},
              {"op": "edit_save", "o": name, "v": element, "case": k},          list option: read, append, save
@@ -27,12 +31,15 @@ PROPERTY = "C11"
 LEVEL = "exploration"
 RULE = ("Hypothesis-generated cases: an option table of 2..8 options over every declared type with initial "
         "states unset / empty / one value / many values, defaults of zero, one or several lines, with and "
-        "without config/defaults support, 'Dependent' or 'Dependant' port entries; then 1..12 steps of "
+        "without config/defaults support, 'Dependent' or 'Dependant' port entries; the view is attached either with "
+        "TorConfig.from_protocol() or (one case in three) as launch() does it: TorConfig() without a protocol, 0..3 "
+        "options assigned locally under case-mangled spellings (values equal to what Tor then reports, or different), "
+        "then attach_protocol(); then 1..12 steps of "
         "CONF_CHANGED events (1..3 options each, 0/1/many values, bare key = unset, only real changes are "
         "announced), reads under four spellings of the name, read-append-save on list options, assign-save, "
         "and socks_endpoint(); with or without Tor echoing our own SETCONFs as CONF_CHANGED. A real TorConfig "
         "is bootstrapped over a causal byte pipe from the reference store and every option is read back after "
-        "bootstrap, after every event and after every save. Non-trivial = some list-typed option was changed "
+        "bootstrap (on the attach route under all four spellings), after every event and after every save. Non-trivial = some list-typed option was changed "
         "by an event and afterwards read, appended to and saved (the tracked-list check ran to completion); "
         "distinct = distinct canonical JSON.")
 ASSUMPTIONS = [
@@ -49,6 +56,10 @@ ASSUMPTIONS = [
     "value did not change are not announced; a port option is never *emptied* by a foreign event (Tor would "
     "announce that under the Virtual '...PortLines' name, which the statement does not cover)",
     "events are not generated for an option while a local change to it is unsaved",
+    "attach_protocol() route: the statement says the view built when attaching reports, for every option Tor "
+    "lists, the value Tor returned (unset -> default), so values assigned locally before attaching - equal to "
+    "Tor's or not, under any spelling - are expected to be replaced by Tor's and nothing is pending afterwards; "
+    "options Tor does not list are not assigned; each option is pre-assigned under at most one spelling",
     "after saving a CommaList/RouterList of several elements the option is not compared until the next "
     "event about it (txtorcon writes one key per element, of which Tor keeps the last; C10 accepts that form)",
     "list elements are compared by their str(); Boolean views by ==",
@@ -77,6 +88,41 @@ def _elements(typ):
     # str elements only: int elements in a port list (C10 covers saving them) make socks_endpoint() a
     # question about local values, not about Tor's configuration
     return cm.list_elements(typ).map(str)
+
+
+def _equal_local_values(o):
+    """Local values a caller would have handed to Tor (torrc / command line) for what Tor now reports."""
+    typ, lines = o["type"], o["value"]
+    if typ == "Boolean":
+        return st.sampled_from([1, True] if lines[0] == "1" else [0, False])
+    if typ == "Boolean+Auto":
+        return st.just({"0": 0, "1": 1, "auto": -1}[lines[0]])
+    if typ in ("Integer", "SignedInteger", "Port", "TimeInterval", "DataSize"):
+        return st.sampled_from([int(lines[0]), lines[0]])
+    if typ == "Float":
+        return st.just(float(lines[0]))
+    if typ in ("String", "Filename"):
+        return st.just(lines[0])
+    if typ in ("CommaList", "RouterList"):
+        return st.just(simconf.split_commas(lines[0]))
+    alts = [list(lines)]
+    if typ == "PortLines" and len(lines) == 1:
+        alts.append(lines[0])                       # launch(): config.SOCKSPort = socks_port
+        if lines[0].isdigit():
+            alts.append(int(lines[0]))
+    return st.sampled_from(alts)
+
+
+def _local_value(o):
+    typ = o["type"]
+    if simconf.is_list_type(typ):
+        differ = st.one_of(st.lists(_elements(typ), max_size=3), st.integers(1, 65535) if typ == "PortLines"
+                           else st.lists(_elements(typ), min_size=1, max_size=2))
+    else:
+        differ = cm.assign_values(typ)
+    if o["value"] is None or o["value"] == [""]:
+        return differ
+    return st.one_of(_equal_local_values(o), _equal_local_values(o), differ)
 
 
 @st.composite
@@ -125,7 +171,12 @@ def cases(draw, max_steps=12):
             return {"op": "assign_save", "o": o["name"], "v": v, "case": draw(spell)}
         return {"op": "socks", "pick": draw(st.one_of(st.none(), st.integers(0, 3))), "as_int": draw(st.booleans())}
 
-    return {"opts": opts, "defaults": draw(st.sampled_from([True, True, False])),
+    attach = None
+    if draw(st.integers(0, 2)) == 0:
+        n = min(draw(st.sampled_from([0, 1, 1, 2, 2, 3])), len(opts))
+        targets = draw(st.lists(st.sampled_from(opts), min_size=n, max_size=n, unique_by=lambda o: o["name"]))
+        attach = [{"o": o["name"], "case": draw(st.integers(0, 3)), "v": draw(_local_value(o))} for o in targets]
+    return {"opts": opts, "attach": attach, "defaults": draw(st.sampled_from([True, True, False])),
             "dep": draw(st.sampled_from(["Dependent", "Dependent", "Dependant"])),
             "echo": draw(st.booleans()),
             "steps": draw(st.lists(step(), min_size=1, max_size=max_steps))}
@@ -163,10 +214,25 @@ class _Run(object):
         self.sim = simconf.SimConf(case["opts"], defaults_supported=case.get("defaults", True),
                                    echo=case.get("echo", False), dependent_word=case.get("dep", "Dependent"))
         self.pipe, self.srv = bootstrapped_pipe(self.sim.handler)
-        w = Watch(TorConfig.from_protocol(self.pipe.proto))
-        self.pipe.pump()
+        self.pre = {}               # option name -> local pre-assignment (attach route)
+        self.attach = case.get("attach") is not None
+        if not self.attach:
+            w = Watch(TorConfig.from_protocol(self.pipe.proto))
+            self.pipe.pump()
+            self.cfg = w.result if w.succeeded else None
+        else:
+            # what launch() does: a protocol-less TorConfig, filled in, then attach_protocol()
+            cfg = TorConfig()
+            for a in case["attach"]:
+                if a["o"] in self.pre:
+                    raise HarnessError("case pre-assigns %s twice" % a["o"])
+                self.pre[a["o"]] = a
+                v = a["v"]
+                setattr(cfg, cm.mangle(a["o"], a["case"]), list(v) if isinstance(v, list) else v)
+            w = Watch(cfg.attach_protocol(self.pipe.proto))
+            self.pipe.pump()
+            self.cfg = cfg if w.succeeded else None
         self.boot = w
-        self.cfg = w.result if w.succeeded else None
         self.opts = {}
         for o in case["opts"]:
             m = _Opt(o)
@@ -178,6 +244,14 @@ class _Run(object):
     # ---- classification of a wrong read
     def _tag(self, m, got):
         rec = m.rec
+        if m.origin == "bootstrap" and m.name in self.pre:
+            a = self.pre[m.name]
+            local = a["v"]
+            if type(got) is type(local) and got == local or (isinstance(local, list) and isinstance(got, list)
+                                                              and list(got) == local):
+                return "attach-local-value-not-replaced-by-tors"
+            if rec["value"] is None and self.sim.default(m.name) is not None and cm.mangle(m.name, a["case"]) != m.name:
+                return "attach-default-not-found-under-local-spelling"
         if m.origin == "bootstrap":
             if m.is_list and rec["value"] is None:
                 d = self.sim.default(m.name)
@@ -203,21 +277,24 @@ class _Run(object):
             return "event-view-wrong"
         return "view-wrong-after-save"
 
-    def check_all(self, when):
+    def check_all(self, when, spellings=(0,)):
         for m in self.opts.values():
             if m.unsure:
                 continue
-            try:
-                got = getattr(self.cfg, m.name)
-            except Exception as e:
-                self.res.bad("read-raised", "%s after %s: %r" % (m.name, when, e))
-                self.dead = True
-                return
-            if not cm.same_view(m.typ, m.want, got):
-                self.res.bad(self._tag(m, got), "%s (%s) reads %r after %s; reference store %r default %r -> %r" % (
-                    m.name, m.typ, got, when, self.sim.get(m.name), self.sim.default(m.name), m.want))
-                self.dead = True
-                return
+            for k in spellings:
+                nm = cm.mangle(m.name, k)
+                try:
+                    got = getattr(self.cfg, nm)
+                except Exception as e:
+                    self.res.bad("read-raised", "%s after %s: %r" % (nm, when, e))
+                    self.dead = True
+                    return
+                if not cm.same_view(m.typ, m.want, got):
+                    self.res.bad(self._tag(m, got), "%s (%s) reads %r after %s; reference store %r default %r -> %r%s" % (
+                        nm, m.typ, got, when, self.sim.get(m.name), self.sim.default(m.name), m.want,
+                        ("; assigned locally before attaching: %r" % (self.pre[m.name],)) if m.name in self.pre else ""))
+                    self.dead = True
+                    return
 
     # ---- steps
     def do_event(self, s):
@@ -448,7 +525,7 @@ def drive_view(case):
     res = Result()
     run = _Run(case, res)
     if run.cfg is None:
-        res.bad("bootstrap-failed", "%r" % (run.boot.outcome(),))
+        res.bad("attach-failed" if run.attach else "bootstrap-failed", "%r" % (run.boot.outcome(),))
         return res
     for m in run.opts.values():
         v = run.sim.get(m.name)
@@ -461,7 +538,29 @@ def drive_view(case):
             res.label("boot:scalar:unset" + ("+default" if run.sim.default(m.name) is not None else ""))
     if not case.get("defaults", True):
         res.label("no-config/defaults-support")
-    run.check_all("bootstrap")
+    if run.attach:
+        res.label("route:attach_protocol")
+        if not run.pre:
+            res.label("attach:nothing-preassigned")
+        for name, a in run.pre.items():
+            m = run.opts[name]
+            equal = not isinstance(m.want, str) or m.want != cm.UNSET
+            if equal:
+                v = a["v"]
+                if m.is_list:
+                    equal = [str(x) for x in (v if isinstance(v, list) else [v])] == [str(x) for x in m.want]
+                elif m.typ == "Float":
+                    equal = float(v) == m.want
+                else:
+                    equal = cm.ref_validated(m.typ, v)[1] == m.want
+            res.label("attach:local-%s:%s%s" % ("equal" if equal else "differs", "list" if m.is_list else "scalar",
+                                                "" if cm.mangle(name, a["case"]) == name else ":other-spelling"))
+            if m.is_list and not isinstance(a["v"], list):
+                res.label("attach:list-option-assigned-a-scalar")
+        run.check_all("attach_protocol", spellings=(0, 1, 2, 3))
+    else:
+        res.label("route:from_protocol")
+        run.check_all("bootstrap")
     if not run.dead and run.cfg.needs_save():
         res.bad("needs-save-true-after-bootstrap", "")
         run.dead = True
@@ -526,10 +625,29 @@ def _fixed_cases():
         yield dict(b, steps=[ev(("LongLivedPorts", ["80,443"])), {"op": "edit_save", "o": "LongLivedPorts", "v": "8080", "case": 0}])
         yield dict(b, steps=[ev(("LongLivedPorts", [""])), {"op": "read", "o": "LongLivedPorts", "case": 0},
                              {"op": "assign_save", "o": "AvoidDiskWrites", "v": True, "case": 2}])
+    # attach_protocol() route, as launch() uses it: options first set on a protocol-less TorConfig
+    t3 = [O("SocksPort", "PortLines", value=["9050"], default=["9050"]), O("DNSPort", "PortLines", value=["5353", "5354"]),
+          O("DataDirectory", "Filename", value=["/tmp/tordata"]), O("AvoidDiskWrites", "Boolean", value=["1"], default=["0"]),
+          O("Log", "LineList", default=["notice stdout"]), O("Nickname", "String", default=["Unnamed"]),
+          O("NumCPUs", "Integer", value=["2"])]
+    pre = lambda o, k, v: {"o": o, "case": k, "v": v}
+    for echo in (False, True):
+        b = dict(base, echo=echo, opts=t3)
+        yield dict(b, attach=[pre("SocksPort", 2, 9050), pre("DataDirectory", 0, "/tmp/tordata"), pre("AvoidDiskWrites", 1, 1)],
+                   steps=[{"op": "edit_save", "o": "SocksPort", "v": "9999", "case": 0},
+                          ev(("SocksPort", ["9050", "9150 IsolateDestAddr"])), {"op": "socks", "pick": 1, "as_int": True},
+                          {"op": "edit_save", "o": "SocksPort", "v": "9151", "case": 3}])
+        yield dict(b, attach=[pre("DNSPort", 1, ["5353", "5354"]), pre("NumCPUs", 3, "2")],
+                   steps=[{"op": "edit_save", "o": "DNSPort", "v": "5355", "case": 2}, ev(("NumCPUs", ["4"]))])
+        yield dict(b, attach=[pre("Log", 1, ["debug syslog"]), pre("Nickname", 2, "other"), pre("NumCPUs", 0, 7)],
+                   steps=[{"op": "edit_save", "o": "Log", "v": "info stdout", "case": 0}, ev(("Nickname", ["x"])),
+                          ev(("Nickname", None)), {"op": "read", "o": "Nickname", "case": 1}])
+        yield dict(b, attach=[], steps=[{"op": "edit_save", "o": "Log", "v": "info stdout", "case": 1}])
 
 
 MANIFEST = {
-    "text": "Model-based generated-input search (Hypothesis): option tables (names x declared types x initial "
+    "text": "Model-based generated-input search (Hypothesis), view attached via from_protocol() or via TorConfig() + local "
+            "assignments + attach_protocol(): option tables (names x declared types x initial "
             "values unset/empty/one/many, defaults of 0/1/several lines, with and without config/defaults) served "
             "by a reference Tor configuration store over a causal byte pipe to a real TorConfig; then sequences of "
             "CONF_CHANGED events (0/1/many values, bare key = unset), reads under case-mangled names, "
@@ -548,10 +666,23 @@ MANIFEST = {
 
 def run(ctx):
     ctx.enumerate("view", _fixed_cases(), name="fixed-scenarios", exhaustive=False)
-    ctx.search("view", cases(), quick=1100, thorough=3000)
+    ctx.search("view", cases(), quick=1000, thorough=3000)
 
 
 MUTANTS = [
+    # attach_protocol() route (options assigned under another spelling before attaching)
+    ("port-list-stored-under-tors-spelling", "txtorcon/torconfig.py",
+     "                self.config[rn] = _ListWrapper(\n                    initial, functools.partial(self.mark_unsaved, rn))",
+     "                self.config[name[:-5]] = _ListWrapper(\n"
+     "                    initial, functools.partial(self.mark_unsaved, name[:-5]))"),
+    ("scalar-stored-under-tors-spelling", "txtorcon/torconfig.py",
+     "                self.config[rn] = parsed\n", "                self.config[name] = parsed\n"),
+    ("attach-keeps-local-values-pending", "txtorcon/torconfig.py",
+     "        # make sure we have nothing in self.unsaved\n        self.save()\n",
+     "        # make sure we have nothing in self.unsaved\n"),
+    # needs fixes/C11-attach-default-under-local-spelling.diff in the tree (undoes it)
+    ("default-not-aliased-to-local-spelling", "txtorcon/torconfig.py",
+     "            if rn != name and name in defaults:", "            if False:"),
     # the last four need the C11 repairs in the tree (they undo parts of them); on a tree without the
     # repairs the check fails anyway
     ("case-sensitive-name-lookup", "txtorcon/torconfig.py",
